@@ -106,7 +106,7 @@ func c09Gen(seed uint64, run int, tier string) *Case {
 			case 8:
 				ops = append(ops, Op{K: "readwrong", A: []int64{off | int64(markWrong), 10}})
 			case 9:
-				ops = append(ops, Op{K: "tagreads", A: []int64{int64(len(ops)), int64(r.Pick(2, 3, 4, 5, 6, 6, 20, 24)), int64(r.Pick(1, 8, 30)), int64(r.Intn(3)), int64(r.Intn(4))}}) // up to 24 deep: more than the Tag's own 16-slot completion queue
+				ops = append(ops, Op{K: "tagreads", A: []int64{int64(len(ops)), int64(r.Pick(2, 3, 4, 5, 6, 6, 20, 24)), int64(r.Pick(1, 8, 30, -1)), int64(r.Intn(3)), int64(r.Intn(4))}}) // up to 24 deep: more than the Tag's own 16-slot completion queue
 			}
 		}
 		c.Ops = append(c.Ops, Op{K: "caller", Sub: ops})
@@ -190,6 +190,24 @@ func c09Exec(x *Ctx) {
 	longrun := int(c.cfg("longrun"))
 	rt.Go(rt.SiteSpawn, func() {
 		rt.SetName("main")
+		if c.Seed%3 == 0 && longrun == 0 {
+			// the process has had another client before this one (its own connection, a few calls, unmounted):
+			// whatever a client keeps for reuse, it keeps for itself
+			ds, dc := rt.NewPipePair(0, "srv-decoy", "clnt-decoy")
+			dpeer := NewSrvPeer(x, ds, 8192, false)
+			dpeer.NoDupCheck = true
+			dpeer.Handle = func(p *SrvPeer, r *PReq) { p.Send(r, Encode(StdReply(r.M, p.Msize, false), false)) }
+			dpeer.Start()
+			if dclnt, err := go9p.Connect(dc, 8192, false); err == nil {
+				if dfid, err := dclnt.Attach(nil, go9p.OsUsers.Uid2User(0), ""); err == nil {
+					for k := 0; k < 5; k++ {
+						dclnt.Stat(dfid)
+					}
+				}
+				dclnt.Unmount()
+				x.Probe("another-client-in-the-process-before")
+			}
+		}
 		clnt, err := go9p.Connect(cc, msize, c.cfg("dotu") != 0)
 		if err == nil {
 			var fid *go9p.Fid
